@@ -297,10 +297,12 @@ pub fn gen03(r: &mut Rng, n: usize) -> Vec<String> {
     out
 }
 
-const PATH_PARTS: [&str; 20] = [
+const PATH_PARTS: [&str; 27] = [
     "a", "b", "..", ".", "", "c.txt", "...", "..a", "a..", " ", "@C@", "x/y", "é", "-",
     // not separators on this platform: one ordinary component each
     "..\\..\\evil", "a\\b", "\\abs", "..\\", "C:\\x", "..\\..",
+    // ordinary components that turn into `.` / `..` when control characters or blanks are dropped afterwards
+    ".\t.", ".\u{1}.", "\t", ".\n", "..\u{7f}", "a\tb", ". .",
 ];
 
 fn gen_path(r: &mut Rng) -> Vec<u8> {
